@@ -9,6 +9,7 @@
 -/
 import Krp.Lemmas.HubSpec
 import Krp.Lemmas.Still
+import Krp.Lemmas.RateStep
 namespace Krp
 open HubSt
 
@@ -316,5 +317,174 @@ example (u v : Addr) (a : Nat) :
     Still (.wasm u stseiA (.tok (.transferFrom v u a)) []) = true ∧
     Still (.wasm u rewardA (.reward (.claim none)) []) = true ∧
     Still (.wasm u regA (.reg (.add v)) []) = true := ⟨rfl, rfl, rfl, rfl, rfl⟩
+
+
+/-! ### any transaction: the composed theorem
+
+  `Lemmas/RateInv`–`RateStep`: through every message of a transaction — whatever it is, whoever
+  sends it, whatever it triggers in the six contracts, the bank and the staking module — the two
+  rates the transaction started from stay true ratios of the *effective* pools (booked stake over
+  supply + Mint messages in flight − the hub's Burn messages in flight + requests). When the queue is
+  empty nothing is in flight, so they are true ratios of the final pools, and the rates the State
+  query then derives are at least as high. -/
+
+/-- the pool is backed: the zero-backed state (stake 0 with claims outstanding, rate reported as 1)
+    is the known finding D6 and excluded -/
+def Backed (B S R : Nat) : Prop := 0 < B ∨ S + R = 0
+
+/-- **No transaction lowers a rate (pools).** Start in any state of the composed system with both
+    tokens registered, well-formed ledgers, the books within the delegations (no unrecognised
+    slash: C02), stake bonded and both pools backed. Let anyone send any message that is neither a
+    staking message in the hub's name, nor a token Mint, nor sent from the hub's own address. If the
+    transaction succeeds, then for each token: either its claims (supply + requests) are zero at the
+    end, or the ratio of the start is still a true ratio of the final pool — hence at most the rate
+    the final pool yields. (A failed transaction changes nothing.) -/
+theorem C04_tx_keeps_true_ratios (s s' : Sys) (m : Msg)
+    (hstk : isStake m = false) (hmint : isMint m = false) (hsnd : m.sentFrom ≠ hubA)
+    (c : ChainOK s) (hbk : s.hub.bBond + s.hub.sBond ≤ totalDelegated s) (hb0 : s.hub.bBond + s.hub.sBond ≠ 0)
+    (btok : s.hub.bsei = some bseiA) (stok : s.hub.stsei = some stseiA)
+    (bwf : s.bsei.WF) (swf : s.stsei.WF) (bhub : s.bsei.hub = hubA) (shub : s.stsei.hub = hubA)
+    (backB : Backed s.hub.bBond s.bsei.supply s.hub.reqB) (backS : Backed s.hub.sBond s.stsei.supply s.hub.reqS)
+    (hrun : Sys.run 400 s [m] = .ok s') :
+    (s'.bsei.supply + s'.hub.reqB = 0 ∨ rb0 s ≤ rateOf s'.hub.bBond s'.bsei.supply s'.hub.reqB) ∧
+    (s'.stsei.supply + s'.hub.reqS = 0 ∨ rs0 s ≤ rateOf s'.hub.sBond s'.stsei.supply s'.hub.reqS) ∧
+    s'.hub.bBond + s'.hub.sBond ≤ totalDelegated s' ∧
+    rb0 s * (s'.bsei.supply + s'.hub.reqB) ≤ s'.hub.bBond * D ∧
+    rs0 s * (s'.stsei.supply + s'.hub.reqS) ≤ s'.hub.sBond * D ∧
+    s'.hub.bsei = some bseiA ∧ s'.hub.stsei = some stseiA ∧ ChainOK s' := by
+  -- the invariant holds at the start
+  have nf : NoFlow [m] := by
+    have h1 : ∀ t, mintsTo t [m] = 0 := fun t => mintsTo_of_noMint t [m] (fun x hx => by
+      simp only [List.mem_singleton] at hx; subst hx; exact hmint)
+    have h2 : ∀ t, burnsBy t [m] = 0 := fun t => burnsBy_of_sentBy t m.sentFrom [m] (fun x hx => by
+      simp only [List.mem_singleton] at hx; subst hx; rfl) hsnd
+    exact ⟨h1 _, h1 _, h2 _, h2 _⟩
+  have inv0 : RInv s s [m] := by
+    refine ⟨⟨c, [], [m], rfl, (fun _ h => by cases h), (fun x hx => by
+        simp only [List.mem_singleton] at hx; subst hx; exact hstk), by simpa [undelSum, delSum] using hbk⟩,
+      btok, stok, bwf, swf, bhub, shub, ?_, ?_, Or.inl ⟨SamePricing.refl s, nf, [], [m], rfl, AllStill.nil, by
+        intro x hx; simp at hx⟩⟩
+    · unfold TR rb0; rw [nf.1, nf.2.2.1]
+      simpa using rateOf_mul_le s.hub.bBond s.bsei.supply s.hub.reqB backB
+    · unfold TR rs0; rw [nf.2.1, nf.2.2.2]
+      simpa using rateOf_mul_le s.hub.sBond s.stsei.supply s.hub.reqS backS
+  have fin := run_inv2 (RInv s) (fun a b r a' sb h hx => RInv.step s a a' b r sb hb0 h hx) 400 s [m] s' inv0 hrun
+  have tb := fin.trb
+  have ts := fin.trs
+  unfold TR at tb ts
+  simp only [mintsTo, burnsBy, Nat.add_zero, Nat.mul_zero] at tb ts
+  refine ⟨?_, ?_, fin.book.drained, tb, ts, fin.btok, fin.stok, fin.book.chain⟩
+  · by_cases hz : rb0 s = 0
+    · right; rw [hz]; exact Nat.zero_le _
+    · exact C04_rate_after _ _ _ _ (Nat.pos_of_ne_zero hz) tb
+  · by_cases hz : rs0 s = 0
+    · right; rw [hz]; exact Nat.zero_le _
+    · exact C04_rate_after _ _ _ _ (Nat.pos_of_ne_zero hz) ts
+
+
+/-- the State query of a state without an unrecognised slash: the ratios of its own pools, or — when
+    nothing is delegated or booked — the stored rates -/
+theorem reportedRates_noslash (s : Sys) (c : ChainOK s) (hbk : s.hub.bBond + s.hub.sBond ≤ totalDelegated s)
+    (btok : s.hub.bsei = some bseiA) (stok : s.hub.stsei = some stseiA) (rb rs : Nat)
+    (h : reportedRates s = .ok (rb, rs)) :
+    (s.hub.bBond + s.hub.sBond ≠ 0 → rb = rb0 s ∧ rs = rs0 s) ∧
+    (s.hub.bBond + s.hub.sBond = 0 → rb = s.hub.bRate ∧ rs = s.hub.sRate) := by
+  unfold reportedRates at h
+  split at h
+  · rename_i st hst
+    injection h with h; injection h with h1 h2
+    subst h1; subst h2
+    have ns : s.hub.bBond + s.hub.sBond ≤ ((s.hubEnv.delegations).map (·.2)).sum := by
+      rw [delegations_sum s c]; exact hbk
+    constructor
+    · intro hz
+      have hd : s.hubEnv.delegations ≠ [] := by
+        intro hnil; rw [hnil] at ns; simp at ns; exact hz (by omega)
+      have f := fresh_state s.hub st s.hubEnv hst btok stok s.bsei.supply s.stsei.supply
+        (by show s.supplyOf bseiA = _; unfold Sys.supplyOf; rw [if_pos rfl])
+        (by show s.supplyOf stseiA = _; unfold Sys.supplyOf; rw [if_neg (by decide), if_pos rfl]) ns hd hz
+      exact ⟨f.2.2.2.2.1, f.2.2.2.2.2.1⟩
+    · intro hz
+      have sp := actualState_spec s.hub st s.hubEnv hst
+      rcases sp.2 with ⟨_, he⟩ | ⟨_, _, _, hne, _⟩
+      · rw [he]; exact ⟨rfl, rfl⟩
+      · exact absurd hz hne
+  · cases h
+
+/-- **No transaction lowers a reported rate.** Under the premises of `C04_tx_keeps_true_ratios`: if
+    the State query reports `(rb, rs)` before a transaction and `(rb', rs')` after it — whether the
+    transaction succeeded or not — then for each token the rate did not fall, unless the token ends
+    the transaction without any claims (no supply and no pending requests). -/
+theorem C04_tx_never_lowers_rates (s : Sys) (m : Msg)
+    (hstk : isStake m = false) (hmint : isMint m = false) (hsnd : m.sentFrom ≠ hubA)
+    (c : ChainOK s) (hbk : s.hub.bBond + s.hub.sBond ≤ totalDelegated s) (hb0 : s.hub.bBond + s.hub.sBond ≠ 0)
+    (btok : s.hub.bsei = some bseiA) (stok : s.hub.stsei = some stseiA)
+    (bwf : s.bsei.WF) (swf : s.stsei.WF) (bhub : s.bsei.hub = hubA) (shub : s.stsei.hub = hubA)
+    (backB : Backed s.hub.bBond s.bsei.supply s.hub.reqB) (backS : Backed s.hub.sBond s.stsei.supply s.hub.reqS)
+    (rb rs rb' rs' : Nat) (h0 : reportedRates s = .ok (rb, rs))
+    (h1 : reportedRates (s.exec m).1 = .ok (rb', rs')) :
+    ((s.exec m).1.bsei.supply + (s.exec m).1.hub.reqB = 0 ∨ rb ≤ rb') ∧
+    ((s.exec m).1.stsei.supply + (s.exec m).1.hub.reqS = 0 ∨ rs ≤ rs') := by
+  have r0 := (reportedRates_noslash s c hbk btok stok rb rs h0).1 hb0
+  unfold Sys.exec at h1 ⊢
+  split at h1
+  · rename_i s' hrun
+    simp only [] at h1 ⊢
+    obtain ⟨k1, k2, k3, k4, k5, k6, k7, k8⟩ := C04_tx_keeps_true_ratios s s' m hstk hmint hsnd c hbk hb0 btok stok bwf swf bhub shub
+      backB backS hrun
+    have r1 := reportedRates_noslash s' k8 k3 k6 k7 rb' rs' h1
+    rw [r0.1, r0.2]
+    by_cases hz : s'.hub.bBond + s'.hub.sBond = 0
+    · -- nothing is booked any more: a rate that was positive leaves no claims behind
+      have hB : s'.hub.bBond = 0 := by omega
+      have hS : s'.hub.sBond = 0 := by omega
+      rw [hB] at k4; rw [hS] at k5
+      simp only [Nat.zero_mul, Nat.le_zero_eq, Nat.mul_eq_zero] at k4 k5
+      constructor
+      · rcases k4 with h | h
+        · right; rw [h]; exact Nat.zero_le _
+        · left; exact h
+      · rcases k5 with h | h
+        · right; rw [h]; exact Nat.zero_le _
+        · left; exact h
+    · have e := r1.1 hz
+      rw [e.1, e.2]
+      exact ⟨k1, k2⟩
+  · rename_i e hrun
+    simp only [] at h1 ⊢
+    rw [h0] at h1
+    injection h1 with h1; injection h1 with e1 e2
+    subst e1; subst e2
+    exact ⟨Or.inr (Nat.le_refl _), Or.inr (Nat.le_refl _)⟩
+
+
+/-- **Every reachable state.** From a state `g` with the books within the delegations, both tokens
+    registered and well-formed ledgers (genesis), after any history without validator slashing —
+    any transactions by anyone, failures, time, rewards, donations, slashing of *unbonding* stake —
+    a transaction that finds stake bonded and both pools backed does not lower a reported rate. -/
+theorem C04_reachable_tx (g : Sys) (l : List Step) (m : Msg)
+    (cg : ChainOK g) (hg : g.hub.bBond + g.hub.sBond ≤ totalDelegated g) (hns : ∀ st ∈ l, NoSlash st)
+    (btok : g.hub.bsei = some bseiA) (stok : g.hub.stsei = some stseiA)
+    (bwf : g.bsei.WF) (swf : g.stsei.WF) (bhub : g.bsei.hub = hubA) (shub : g.stsei.hub = hubA)
+    (hstk : isStake m = false) (hmint : isMint m = false) (hsnd : m.sentFrom ≠ hubA)
+    (hb0 : (g.steps l).hub.bBond + (g.steps l).hub.sBond ≠ 0)
+    (backB : Backed (g.steps l).hub.bBond (g.steps l).bsei.supply (g.steps l).hub.reqB)
+    (backS : Backed (g.steps l).hub.sBond (g.steps l).stsei.supply (g.steps l).hub.reqS)
+    (rb rs rb' rs' : Nat) (h0 : reportedRates (g.steps l) = .ok (rb, rs))
+    (h1 : reportedRates ((g.steps l).exec m).1 = .ok (rb', rs')) :
+    (((g.steps l).exec m).1.bsei.supply + ((g.steps l).exec m).1.hub.reqB = 0 ∨ rb ≤ rb') ∧
+    (((g.steps l).exec m).1.stsei.supply + ((g.steps l).exec m).1.hub.reqS = 0 ∨ rs ≤ rs') := by
+  have bk := C02_reachable g l cg hg hns
+  have tk := tokens_registered_reachable g l btok stok
+  have wf := C18_reachable g l bwf swf
+  exact C04_tx_never_lowers_rates (g.steps l) m hstk hmint hsnd bk.2 bk.1 hb0 tk.1 tk.2 wf.1 wf.2.1
+    (by rw [wf.2.2.1]; exact bhub) (by rw [wf.2.2.2.1]; exact shub) backB backS rb rs rb' rs' h0 h1
+
+/-! Non-vacuity: genesis satisfies the premises on `g`; a backed pool at rate 0.9 satisfies `Backed`. -/
+example : ChainOK genesisSys ∧ genesisSys.hub.bBond + genesisSys.hub.sBond ≤ totalDelegated genesisSys ∧
+    genesisSys.hub.bsei = some bseiA ∧ genesisSys.hub.stsei = some stseiA ∧
+    genesisSys.bsei.hub = hubA ∧ genesisSys.stsei.hub = hubA :=
+  ⟨⟨fun _ _ => rfl, fun _ _ => rfl⟩, by decide, by decide, by decide, by decide, by decide⟩
+example : Backed 900 1000 0 ∧ Backed 0 0 0 := ⟨Or.inl (by decide), Or.inr rfl⟩
 
 end Krp
